@@ -9,6 +9,7 @@ Every observable is an integer tag:
 Episode number `ord` (1, 2, ...) lasts lens[ord % len(lens)] steps; at its last step every live agent is
 terminated (mode "term"), truncated (mode "trunc") or one of the two by parity of a + ord (mode "mixed").
 Agent a with leave[a] = k is terminated at step k of every episode and is absent from then on.
+Agent a with join[a] = k is absent after reset and appears (in the dicts of that step and in env.agents) at step k.
 reset(seed=s) sets base = s (observable in feature 1), reset() keeps it.
 With unaligned=True the truncation dict lists the agents in the reverse order of the other dicts (dicts are
 maps: a consumer must pair them by key). With reversed_out=True every dict returned by reset/step lists the agents in
@@ -148,7 +149,7 @@ class ScriptedEnv(ParallelEnv):
     render_mode = None
 
     def __init__(self, eid=0, nagents=2, lens=(3,), mode="term", leave=None, kind="vector", akind="discrete",
-                 unaligned=False, reversed_out=False, rich_info=False):
+                 unaligned=False, reversed_out=False, rich_info=False, join=None):
         self.eid = int(eid)
         self.nagents = int(nagents)
         self.lens = [int(x) for x in lens]
@@ -158,6 +159,7 @@ class ScriptedEnv(ParallelEnv):
         self.akind = akind
         self.unaligned = bool(unaligned)
         self.reversed_out = bool(reversed_out)   # every returned dict lists the agents in reverse order
+        self.join = {int(k): int(v) for k, v in (join or {}).items()}   # agent -> step at which it joins the episode
         self.rich_info = bool(rich_info)         # infos also carry float / bool / None / array / str / nested values
         self.marker = 0                          # plain attribute for get_attr / set_attr
         self.possible_agents = [f"agent_{i}" for i in range(self.nagents)]
@@ -210,7 +212,7 @@ class ScriptedEnv(ParallelEnv):
         self.ord += 1
         self.n_resets += 1
         self.t = 0
-        self.agents = self.possible_agents[:]
+        self.agents = [ag for ag in self.possible_agents if self._idx(ag) not in self.join]
         obs = {ag: self._obs(self._idx(ag), 0) for ag in self.agents}
         info = {ag: self._info(self._idx(ag), True, options) for ag in self.agents}
         if self.reversed_out:
@@ -222,6 +224,9 @@ class ScriptedEnv(ParallelEnv):
         cur_len = self.lens[self.ord % len(self.lens)]
         end = cur_len <= self.t
         obs, rew, term, trunc, info = {}, {}, {}, {}, {}
+        # agents that join at this step get an observation at once and are listed from now on
+        self.agents = self.agents + [ag for ag in self.possible_agents
+                                     if self.join.get(self._idx(ag)) == self.t and ag not in self.agents]
         for ag in self.agents:
             a = self._idx(ag)
             echo = act_code(self.akind, actions[ag])
